@@ -258,11 +258,19 @@ def r3(c):
     er = one(hc.calls('rodbus::tcp::tls::server::extract_modbus_role'), 'extract_modbus_role call')
     cp = one([cs for cs in hc.calls() if cs.callee.endswith('Certificate::parse')], 'Certificate::parse')
     a = q.sem(hc, er.args[0])
-    c.ob('role-of-parsed', a.kind == 'call' and a.cs is cp and a.checked, 'the role is extracted from the successfully parsed peer certificate', repr(a), er.loc())
+    c.ob('role-of-parsed', a.kind == 'call' and a.cs is cp and (a.checked or q.has_success(a.proj)), 'the role is extracted from the successfully parsed peer certificate', repr(a), er.loc())
     pc = [cs for cs in hc.calls() if cs.callee.endswith('::peer_certificates')]
     at = [cs for cs in hc.calls('core::option::Option::and_then') if q.sem(hc, cs.args[0]).kind == 'call' and q.sem(hc, cs.args[0]).cs in pc]
     okp = len(pc) == 1 and len(at) == 1
-    if okp:
+    if len(pc) == 1 and not at:
+        # written out (by hand or by the view): match peer_certificates() { Some(x) => x.first(), None => None }
+        cl_ = hc.op_closure(cp.args[0])
+        pick = [cs for cs in hc.calls() if ('call', cs.callee, cs.block) in cl_ and cs.callee.rsplit('::', 1)[-1] in ('first', 'last', 'get', 'nth', 'index', 'next', 'pop')]
+        okp = len(pick) == 1 and pick[0].callee.endswith('::first')
+        if okp:
+            src_ = q.sem(hc, pick[0].args[0])
+            okp = src_.kind == 'call' and src_.cs is pc[0] and q.has_success(src_.proj)
+    elif okp:
         cl = q.sem(hc, at[0].args[1])
         okp = cl.kind == 'agg' and 'closure' in cl.extra
         if okp:
